@@ -40,7 +40,8 @@ EXTENDS Integers, Sequences, FiniteSets, TLC, Json, IOUtils, SequencesExt
 
 CONSTANTS MaxDepthA,   \* 0..3 : depth of the hierarchy the item is submitted to (0 = a global queue)
           MaxDepthB,   \* 0..2 : depth of the hierarchy of the submitting item (0 = plain thread only)
-          FullKeys,    \* TRUE: both keys placed independently; FALSE: key 2 on the complement or nowhere
+          FullKeys,    \* TRUE: both keys placed independently (+ removal); FALSE: key 2 on the
+                       \* complement of key 1, or nowhere, or nowhere with key 1 set-then-removed elsewhere
           Mut
 
 None == "-"
@@ -68,7 +69,8 @@ ScenShapes == {s \in Scen0 : /\ DOMAIN s.ka = 1..s.da /\ DOMAIN s.kb = 1..s.db
                              /\ (s.db = 0 => s.bpath = "sync")}
 KeyPlacements(L) ==
     IF FullKeys THEN {[k1 |-> a, k2 |-> b, rm |-> r] : a \in SUBSET L, b \in SUBSET L, r \in BOOLEAN}
-    ELSE UNION {{[k1 |-> a, k2 |-> b, rm |-> r] : b \in {L \ a, {}}, r \in BOOLEAN} : a \in SUBSET L}
+    ELSE UNION {{[k1 |-> a, k2 |-> L \ a, rm |-> FALSE], [k1 |-> a, k2 |-> {}, rm |-> FALSE],
+                 [k1 |-> a, k2 |-> {}, rm |-> TRUE]} : a \in SUBSET L}
 \* rm: on every lane where key 1 is not placed it was set and then removed again
 (* ------------------------------- hierarchy ------------------------------- *)
 VARIABLES sc,      \* the scenario (never changes)
